@@ -201,7 +201,7 @@ func (m *UDPMuxDefault) GetConn(ufrag string, addr net.Addr) (net.PacketConn, er
 		muxedConn = m.createMuxedConn(ufrag)
 		go func() {
 			<-muxedConn.CloseChannel()
-			m.RemoveConnByUfrag(ufrag)
+			m.removeClosedConn(ufrag, muxedConn)
 		}()
 
 		if isIPv6 {
@@ -247,6 +247,29 @@ func (m *UDPMuxDefault) RemoveConnByUfrag(ufrag string) {
 	for _, c := range removedConns {
 		addresses := c.getAddresses()
 		for _, addr := range addresses {
+			delete(m.addressMap, addr)
+		}
+	}
+}
+
+// removeClosedConn unregisters exactly conn after it has been closed. Unlike RemoveConnByUfrag it leaves
+// alone whatever else is registered under the same ufrag: the connection of the other IP family, or a
+// newer connection created by a GetConn that ran in the meantime.
+func (m *UDPMuxDefault) removeClosedConn(ufrag string, conn *udpMuxedConn) {
+	m.mu.Lock()
+	if c, ok := m.connsIPv4[ufrag]; ok && c == conn {
+		delete(m.connsIPv4, ufrag)
+	}
+	if c, ok := m.connsIPv6[ufrag]; ok && c == conn {
+		delete(m.connsIPv6, ufrag)
+	}
+	m.mu.Unlock()
+
+	m.addressMapMu.Lock()
+	defer m.addressMapMu.Unlock()
+
+	for _, addr := range conn.getAddresses() {
+		if m.addressMap[addr] == conn {
 			delete(m.addressMap, addr)
 		}
 	}
